@@ -27,6 +27,9 @@ fn collect_deps(
 	resolver: &FileImportResolver,
 	source: &SourcePath,
 	deps: &mut BTreeSet<String>,
+	// Files whose own imports were already followed: a file may be seen as `importstr` first
+	// and as `import` later
+	followed: &mut BTreeSet<String>,
 ) -> Result<(), String> {
 	let contents = resolver
 		.load_file_contents(source)
@@ -49,8 +52,9 @@ fn collect_deps(
 			.resolve_from(source, &&*path)
 			.map_err(|e| format!("{e}"))?;
 		let path_str = format!("{resolved}");
-		if deps.insert(path_str) && expression {
-			collect_deps(resolver, &resolved, deps)?;
+		deps.insert(path_str.clone());
+		if expression && followed.insert(path_str) {
+			collect_deps(resolver, &resolved, deps, followed)?;
 		}
 	}
 
@@ -69,7 +73,9 @@ fn main() {
 		});
 
 	let mut deps = BTreeSet::new();
-	if let Err(e) = collect_deps(&resolver, &source, &mut deps) {
+	let mut followed = BTreeSet::new();
+	followed.insert(format!("{source}"));
+	if let Err(e) = collect_deps(&resolver, &source, &mut deps, &mut followed) {
 		eprintln!("{e}");
 		exit(1);
 	}
